@@ -19,12 +19,13 @@ theorem good_waitRoom {cap : Cap} (p : Pool) (m) (hg : Good cap p) (hl : p.sem.l
     Good cap (p.waitRoom m) := by
   have facts : (p.waitRoom m).sem.value = p.sem.value ∧ grantsL (p.waitRoom m).sem.waiters = grantsL p.sem.waiters ∧
       (p.waitRoom m).tasks = p.tasks ∧ (p.waitRoom m).running = p.running ∧ (p.waitRoom m).cancelledR = p.cancelledR ∧
-      (p.waitRoom m).ended = p.ended ∧ (p.waitRoom m).lost = p.lost := by
+      (p.waitRoom m).ended = p.ended ∧ (p.waitRoom m).lost = p.lost ∧ (p.waitRoom m).groups = p.groups := by
     unfold waitRoom
     simp only
     split <;> simp_all [grantsL, List.countP_append, schedMeta, emitRef, modReq]
-  obtain ⟨f1, f2, f3, f4, f5, f6, f7⟩ := facts
-  refine ⟨?_, fun i tk h hn => hg.phase i tk (by rw [← f3]; exact h) hn, hg.reg.of_eq f3 f4 f5 f6 f7⟩
+  obtain ⟨f1, f2, f3, f4, f5, f6, f7, f8⟩ := facts
+  refine ⟨?_, fun i tk h hn => hg.phase i tk (by rw [← f3]; exact h) hn, hg.reg.of_eq f3 f4 f5 f6 f7,
+    hg.grp.of_eq f8 (by rw [f3])⟩
   cases cap with
   | fin n =>
     obtain ⟨v, hv, hs⟩ := hg.slot
@@ -53,12 +54,39 @@ def SlotPre (cap : Cap) (p : Pool) : Prop :=
   | .fin n => ∃ v, p.sem.value = .fin v ∧ v + (heldL p.tasks + 1) + grantsL p.sem.waiters = n
   | .inf => p.sem.value = .inf ∧ p.sem.waiters = []
 
+theorem flat_addToGroup_perm (gs : List (String × List Nat)) (g : String) (id : Nat) :
+    (flat (addToGroup gs g id)).Perm (id :: flat gs) := by
+  induction gs with
+  | nil => simp [addToGroup, flat]
+  | cons x xs ih =>
+    obtain ⟨n, ids⟩ := x
+    simp only [addToGroup]
+    split
+    · simp only [flat_cons, List.append_assoc, List.singleton_append]
+      exact List.perm_middle
+    · simp only [flat_cons]
+      exact (List.Perm.append_left ids ih).trans List.perm_middle
+
+theorem _root_.Taskpool.GroupsOK.create {p : Pool} (hr : GroupsOK p) (g : String) (q : Pool) (nt : PTask)
+    (hq : q.groups = addToGroup p.groups g p.tasks.length) (ht : q.tasks = p.tasks ++ [nt]) : GroupsOK q := by
+  have hp := flat_addToGroup_perm p.groups g p.tasks.length
+  refine ⟨?_, ?_⟩
+  · rw [hq, hp.nodup_iff, List.nodup_cons]
+    exact ⟨fun h => Nat.lt_irrefl _ (hr.lt _ h), hr.nd⟩
+  · intro i hi
+    rw [hq] at hi
+    have := hp.subset hi
+    rw [ht, List.length_append, List.length_singleton]
+    rcases List.mem_cons.mp this with rfl | h
+    · exact Nat.lt_succ_self _
+    · exact Nat.lt_succ_of_lt (hr.lt i h)
+
 /-- appending a fresh task in phase `created` -/
 theorem good_createTask_afterTake {cap : Cap} (p : Pool) (m : Nat) (isMap : Bool)
-    (hph : PhaseOK p) (hreg : RegOK p) (hpre : SlotPre cap p) : Good cap (p.createTask m isMap) := by
+    (hph : PhaseOK p) (hreg : RegOK p) (hgrp : GroupsOK p) (hpre : SlotPre cap p) : Good cap (p.createTask m isMap) := by
   unfold createTask
   simp only
-  refine ⟨?_, ?_, hreg.create _ rfl _ rfl rfl rfl rfl rfl⟩
+  refine ⟨?_, ?_, hreg.create _ rfl _ rfl rfl rfl rfl rfl, hgrp.create _ _ _ rfl rfl⟩
   · cases cap with
     | fin n =>
       obtain ⟨v, hv, hs⟩ := hpre
@@ -81,7 +109,7 @@ theorem good_takeSlotAndCreate {cap : Cap} (p : Pool) (m : Nat) (isMap : Bool) (
     (hl : p.sem.locked = false) : Good cap (p.takeSlotAndCreate m isMap) := by
   unfold takeSlotAndCreate
   refine good_createTask_afterTake _ m isMap (fun i tk h hn => hg.phase i tk h hn)
-    (hg.reg.of_eq rfl rfl rfl rfl rfl) ?_
+    (hg.reg.of_eq rfl rfl rfl rfl rfl) (hg.grp.of_eq rfl rfl) ?_
   cases cap with
   | fin n =>
     obtain ⟨v, hv, hs⟩ := hg.slot
